@@ -275,11 +275,11 @@ PROPS["C03"] = dict(
 PROPS["C18"] = dict(
     engine="rc", engine_name="rc-tape", sources=["props/c18.cpp"], level="exploration", design_ref="3.19", tape_scale=6,
     quick=dict(cases=40, cross_seeds=4, cross_cases=25, tsan_workers=4, tsan_cases=8), thorough=dict(cases=800, cross_seeds=8, cross_cases=300, tsan_workers=8, tsan_cases=120),
-    cross_variants=["asan", "poisonA", "poisonB"], poison={"poisonA": "0xA5", "poisonB": "0x3C"}, tsan=True,
+    cross_variants=["asan", "poisonA", "poisonB"], poison={"poisonA": "0x7F", "poisonB": "0xFF"}, tsan=True,
     technique="property-based testing (rapidcheck tapes): generated sets of 2..6 jobs (encoder, packet decoder, vorbisfile) run alone, again after heap churn, and concurrently on threads; differential across builds with different stack auto-init and heap fill bytes; ThreadSanitizer run of the same property",
     level_text="Each case is a set of jobs with disjoint objects (encoder configurations, packet decodes of encoder/synthetic streams, vorbisfile handles with read/seek/lap/half-rate scripts). Oracle: every job's output hash when run concurrently behind a "
                "barrier with generated sched_yield points equals its solitary hash; equals its hash when repeated after 300 poisoned malloc/free blocks; the MXCSR / x87 control state is unchanged by every job; the same generated tapes give the same "
-               "output hash in three builds that differ in stack auto-initialisation (pattern / zero / none) and malloc fill byte (0xA5 / 0x3C / ASan); the ThreadSanitizer build of the property reports no race.",
+               "output hash in three builds that differ in stack auto-initialisation (pattern / zero / none) and malloc fill byte (0x7F = huge positive floats / 0xFF = NaN floats and -1 integers / ASan); the ThreadSanitizer build of the property reports no race.",
     level_note="The harness does not own the scheduler: interleavings are sampled, not enumerated; a race is found as far as TSan's happens-before analysis flags the unsynchronised accesses of an execution in which both occur. A read of "
                "uninitialised memory that influences no output is invisible to the differential arm. MSan is not usable (libogg is uninstrumented).",
     rule="case = job set; non-trivial = at least two jobs of different kinds actually overlapped in time (observed by an atomic counter used for this label only, never for the verdict); distinct by hash of the job descriptions",
